@@ -230,6 +230,7 @@ Qed.
 (* ---------- the and node ---------- *)
 Variables (p : nat) (cs : list nat).
 Hypothesis Hp : (p < length C)%nat.
+Hypothesis HRp : Live.Reach C p.
 Hypothesis Ep : nth p C FalseN = And cs.
 Hypothesis Hpos : 0 < cnt C p.
 
@@ -424,7 +425,7 @@ Proof.
   - split; [intros l []|]. split; [intros l []|]. now apply valid_nil.
   - pose proof (so_cfgs _ _ _ _ _ HS) as Hall. rewrite Forall_forall in Hall. specialize (Hall c Hc).
     split; [|split].
-    + intros l Hl. exact (CfgOK_lits C n HQ p Wx c Hp HWx Hall l (Ho l Hl)).
+    + intros l Hl. exact (CfgOK_lits C n HQ p Wx c Hp HRp HWx Hall l (Ho l Hl)).
     + intros l Hl. apply (ok_vars _ _ _ _ _ Hall). now apply Ho.
     + apply (valid_mono C n HQ p (c_decided c)); [exact Hp|exact Ho|apply Hall].
 Qed.
@@ -485,7 +486,7 @@ Proof.
   intros HW. induction Xs as [|X Xs IH]; intros S HS HX; cbn [fold_left]; cbv zeta.
   - split; [exact HS|]. split; [reflexivity|]. split; [auto|intros X []].
   - destruct (HX X (or_introl eq_refl)) as [A1 [A2 A3]].
-    destruct (cover_twise_step C n HQ p W Hp HW S X HS A1 A2 A3) as [K1 [K2 [K3 K4]]]. cbv zeta in *.
+    destruct (cover_twise_step C n HQ p W Hp HRp HW S X HS A1 A2 A3) as [K1 [K2 [K3 K4]]]. cbv zeta in *.
     destruct (IH (cover_twise d p n S X) K1) as [G1 [G2 [G3 G4]]]; [intros Y HY; apply HX; now right|].
     cbv zeta in *. split; [exact G1|]. split; [now rewrite G2|]. split; [auto|].
     intros Y [<-|HY]; [now apply G3|now apply G4].
